@@ -8,7 +8,9 @@ THEOREMS = [
     "Remoc.Robs.mirror_consistent_or_flagged",
     "Remoc.Robs.prefixState_eq_feed",
     "Remoc.Robs.size_limit_enforced_partial",
-    "Remoc.Robs.f9_insert_exceeds_max_size",
+    "Remoc.Robs.f9_insert_is_refused",
+    "Remoc.Robs.Vec.sizeChecked",
+    "Remoc.Robs.VecDeque.sizeChecked",
     "Remoc.Robs.HashMap.sizeChecked",
     "Remoc.Robs.HashSet.sizeChecked",
     "Remoc.Robs.OList.sizeChecked",
